@@ -339,7 +339,9 @@ def main(argv=None):
         outside=["longer histories", "scalar-slot assignment of 0-d values on 1-D targets (object-dtype quirk)"],
         exhaustive=True,
     )
-    return common.main(PROP, "harness.C05", cs, args.tier, args.seed, describe, extra_evidence=extra,
+    from symnp import selftest
+
+    return common.main(PROP, "harness.C05", cs, args.tier, args.seed, describe, preflight=selftest.run, extra_evidence=extra,
                        deadline_s=900 if args.tier == "quick" else 3000)
 
 
